@@ -246,6 +246,52 @@ def eval_chain_cases(ck, name, cases):
     return ids_of(m.group(1)), list(zip(vv[0::2], vv[1::2])), out
 
 
+def fhex_of(tok):
+    """a float as Coq prints it (decimal, 17 significant digits: read back exactly) -> Go's %x form / +Inf / -Inf / NaN"""
+    if tok == "infinity":
+        return "+Inf"
+    if tok == "neg_infinity":
+        return "-Inf"
+    if tok == "nan":
+        return "NaN"
+    return float(tok).hex()
+
+
+def expected_of(ck, name, c):
+    """what the reference semantics (sem_chain over the case's oracle tables, the list spec_code compares with) prescribes for the
+    case: evaluated inside Coq, handed back as rows over the pools of the generated file.  None when the evaluation fails."""
+    P = Pool()
+    body = case_to_coq(P, c)
+    lnames = sorted(P.lbls.items(), key=lambda kv: int(kv[1][1:]))
+    snames = sorted(P.strs.items(), key=lambda kv: int(kv[1][1:]))
+    txt = (PRELUDE + "\n".join(P.defs) + "\nDefinition E := Eval vm_compute in expected_rows %s %s\n  %s.\nPrint E.\n" % (
+        coq_list([n for _, n in lnames]), coq_list([n for _, n in snames]), body))
+    rc, out = ck.coq_eval(name, txt)
+    if rc != 0:
+        return None
+    flat = " ".join(out.split())
+    m = re.search(r"E = \[(.*?)\]\s*: list", flat)
+    if not m:
+        return None
+    rows = []
+    for row in [x for x in m.group(1).split(";") if x.strip()]:
+        tok = re.findall(r"neg_infinity|infinity|nan|-?\d+(?:\.\d*)?(?:e[+-]?\d+)?", row.replace("%Z", "").replace("%float", ""))
+        if len(tok) != 4:
+            return None
+        li, si = int(tok[1]), int(tok[2])
+        rows.append({"ts": c["from"] + int(tok[0]),
+                     "labels": ({k.decode("utf8", "replace"): v.decode("utf8", "replace") for k, v in lnames[li][0]} if li >= 0 else "(a label set that occurs nowhere in the case)"),
+                     "msg": (snames[si][0].decode("utf8", "replace") if si >= 0 else "(a line that occurs nowhere in the case)"),
+                     "val": fhex_of(tok[3]), "val_decimal": tok[3]})
+    return rows
+
+
+def got_rows(c):
+    return [{"ts": e["ts"], "labels": e.get("labels"), "msg": unhex(e["msg"]).decode("utf8", "replace"), "val": e["val"],
+             "val_decimal": ("%r" % float.fromhex(e["val"])) if e["val"].startswith(("0x", "-0x")) else e["val"]}
+            for e in c["out"]["entries"] if e["err"] == ""]
+
+
 def eval_fp_cases(ck, name, cases):
     rows = []
     P = Pool()
@@ -695,13 +741,19 @@ def run_cases(ck, cases, label):
     if new:
         cid, code = min(new, key=lambda p: size_of(byid[p[0]]))
         c = byid[cid]
+        exp = expected_of(ck, "C09_%s_expected" % label, c) if code in (1, 2, 3) else None
+        def row_key(r_):
+            return (json.dumps(r_["labels"], sort_keys=True), r_["ts"])
+        if exp is not None:
+            exp = sorted(exp, key=row_key)
         ck.violation({"property": PID, "kind": {1: "request fails although the reference semantics yields a result",
                                                 2: "entries/values differ from the reference semantics",
                                                 3: "series identity: fingerprints and label sets do not correspond one to one",
                                                 4: "an upstream error was swallowed",
                                                 5: "the limit stage cancelled the upstream query although the entries that arrived cannot fill the limit"}.get(code, "spec"),
-                      "code": code, "query": c["query"], "case": slim(c),
-                      "explanation": "spec_code (model/InternalEngine.v) rejects the output the real chain sent for this input",
+                      "code": code, "query": c["query"], "range": c.get("range"), "case": slim(c),
+                      "expected": exp if exp is not None else "(not evaluated)", "got": sorted(got_rows(c), key=row_key) if c["out"]["err"] == "" else {"error": c["out"]["err"], "message": c["out"].get("err_msg")},
+                      "explanation": "spec_code (model/InternalEngine.v) rejects the output the real chain sent for this input; expected = the reference semantics sem_chain on the input entries (series ordered by label set; series are identified by label set, fingerprints are not compared), got = the data entries the real chain sent",
                       "replay": "harness inteng --cases <file with this case as one JSON line>"})
     elif mism:
         c = min((byid[i] for i in mism), key=size_of)
@@ -916,8 +968,25 @@ def run(ck):
     ck.coverage["evaluations"] += len(allcases)
     ck.coverage["distinct_nontrivial"] += len(distinct)
     ck.coverage["rule"] += ("generated LogQL query strings (log, range-aggregation, unwrap, vector-aggregation with by/without and comparisons; 0-4 extra stages after the "
-                            "breakpoint stage) planned by the production planner, upstream of 0-13 entries over 1-3 series in random batchings (whole, singletons, random cuts, "
+                            "breakpoint stage; ranges in s / m / ms / us / ns, half of the metric queries with a range that is not a whole number of seconds) planned by the production planner, upstream of 0-13 entries over 1-3 series in random batchings (whole, singletons, random cuts, "
                             "empty batches) ending in io.EOF / an error / nothing, limits 0..40 and negative ones, ill-typed label-filter heads, streams collapsing to one label set under by/without or drop, malformed and non-object lines in 1 case of 12; non-trivial = >=2 data entries, "
                             ">=2 batches, >=3 in-process stages; distinct by (query, batches, window, limit). ")
     ck.extra["input_distribution"] = hist
+    # ranges of the generated metric queries: how many are not a whole number of seconds, and how many of those run a rate
+    # (rate / bytes_rate / rate over unwrap divide by the range) in process and sent at least one sample
+    rk = {}
+    for c in allcases:
+        if c.get("mode", "") == "fp" or not c.get("range_kind"):
+            continue
+        d = rk.setdefault(c["range_kind"], {"cases": 0, "in_process_rate": 0, "in_process_rate_with_samples": 0, "ranges": {}})
+        d["cases"] += 1
+        d["ranges"][c["range"]] = d["ranges"].get(c["range"], 0) + 1
+        is_rate = any(s["k"] in ("lra", "unwrap_agg") and s.get("fn") in ("rate", "bytes_rate") for s in c["chain"])
+        d["in_process_rate"] += is_rate
+        d["in_process_rate_with_samples"] += is_rate and c["out"]["err"] == "" and any(e["err"] == "" for e in c["out"]["entries"])
+    ck.extra["range_distribution"] = rk
+    frac_rate = sum(d["in_process_rate_with_samples"] for k_, d in rk.items() if k_ != "whole-s")
+    ck.obligation("the generator reaches in-process rates over ranges that are not a whole number of seconds (ms / us / ns units; %d such cases sent samples, %d of them with a sub-millisecond part or below 1 ms)" % (
+        frac_rate, sum(rk.get(k_, {}).get("in_process_rate_with_samples", 0) for k_ in ("sub-ms-part", "<1ms"))),
+        ck.replay is not None or frac_rate >= ck.n(30, 300), "range kinds: %s" % {k_: d["in_process_rate_with_samples"] for k_, d in rk.items()})
     ck.add_samples([{"query": c["query"], "in": c["in"], "limit": c["limit"], "out": c["out"]} for c in allcases if c.get("mode", "") != "fp" and nontrivial(c)][:3])
